@@ -22,7 +22,7 @@ type program struct {
 
 var ctors = []string{"NewMessageWriter", "NewMessageWriterBuffer", "NewWriter(explicit)", "NewListWriter", "NewValueWriterBuffer"}
 var bodies = []string{"complete", "nested", "fail-midway", "abandon-open", "big-60-fields", "copy"}
-var endings = []string{"Build", "Build+Free", "none"}
+var endings = []string{"Build", "Build+Free", "none", "Build+Unwrap.Free"}
 
 func (p program) String() string {
 	return fmt.Sprintf("%s/%s/%s", ctors[p.ctor], bodies[p.body], endings[p.ending])
@@ -35,6 +35,12 @@ func allPrograms() []program {
 			for e := range endings {
 				if e == 1 && c != 2 {
 					continue // Free only on the explicit writer
+				}
+				if e == 3 && !(c == 0 || c == 1 || c == 3) {
+					continue // Free through the unwrapped writer of a POOLED message / list writer (after its auto-release)
+				}
+				if e == 3 && !(b == 0 || b == 2) {
+					continue
 				}
 				if c >= 3 && (b == 4 || b == 5) {
 					continue // message-only bodies
@@ -161,6 +167,14 @@ func (p program) run(step func()) (out []byte, failed bool) {
 		}
 	}
 	step()
+	var unwrapped spec.Writer
+	if p.ending == 3 {
+		if kind == "m" {
+			unwrapped = m.Unwrap()
+		} else {
+			unwrapped = unwrapList(l)
+		}
+	}
 	var b []byte
 	if p.ending != 2 {
 		var berr error
@@ -179,6 +193,9 @@ func (p program) run(step func()) (out []byte, failed bool) {
 	if p.ending == 1 && explicit != nil {
 		explicit.Free()
 	}
+	if p.ending == 3 && unwrapped != nil {
+		unwrapped.Free() // "Free is always safe": the writer was auto-released by Build a moment ago
+	}
 	if err != nil {
 		return nil, true
 	}
@@ -192,6 +209,9 @@ func unwrapList(l spec.ListWriter) spec.Writer {
 
 // expected results, computed once with fresh (unpooled) state semantics: by running each program alone first.
 var expected = map[program]string{}
+
+// lateFree: the program frees a pooled writer through a raw pointer after its Build succeeded (and auto-released it).
+func lateFree(p program) bool { return p.ending == 3 && p.body != 2 }
 
 func result(b []byte, failed bool) string {
 	if failed {
@@ -214,7 +234,7 @@ func init() {
 			}
 			return out
 		},
-		Doc: fmt.Sprintf("all ordered pairs (P1,P2) of %d writer programs (constructor x body x ending; bodies include failing midway, abandoning an open container, growing the field table beyond its preallocation, Copy; endings Build / Build+Free / never released) run back to back on the LIFO pools: P2's result must equal P2 run alone, also as third program after P1,P1", n),
+		Doc: fmt.Sprintf("all ordered pairs (P1,P2) of %d writer programs (constructor x body x ending; bodies include failing midway, abandoning an open container, growing the field table beyond its preallocation, Copy; endings Build / Build+Free / never released / Build then Free through the unwrapped pooled writer) run back to back on the LIFO pools: P2's result must equal P2 run alone, also as third program after P1,P1", n),
 		Body: func(x *vexp.Ctx) {
 			a := x.P("a", 0)
 			for _, p := range progs {
@@ -255,6 +275,40 @@ func init() {
 					}
 				}
 			}
+			// after a program that frees a pooled writer once more after its Build (sequentially harmless: nobody
+			// else owns it yet), two LATER programs are interleaved on one thread: each must get its own writer
+			if lateFree(p1) {
+				for _, p2 := range progs {
+					for _, p3 := range progs {
+						if p2.ctor == 2 || p3.ctor == 2 || lateFree(p2) || lateFree(p3) || p2.body > 2 || p3.body > 2 {
+							continue
+						}
+						p1.run(func() {})
+						var b2, b3 []byte
+						var f2, f3 bool
+						var pn any
+						func() {
+							defer func() { pn = recover() }()
+							k := 0
+							b2, f2 = p2.run(func() {
+								k++
+								if k == 2 {
+									b3, f3 = p3.run(func() {})
+								}
+							})
+						}()
+						if pn != nil {
+							x.Fail("writer program panics after another program used the pools", "P1=%s then P2=%s interleaved with P3=%s: %v", p1, p2, p3, pn)
+							bad++
+							continue
+						}
+						if g2, g3 := result(b2, f2), result(b3, f3); g2 != expected[p2] || g3 != expected[p3] {
+							x.Fail("two later programs share one pooled writer (released twice by an earlier program)", "P1=%s then P2=%s interleaved with P3=%s: got %s / %s want %s / %s", p1, p2, p3, clip(g2), clip(g3), clip(expected[p2]), clip(expected[p3]))
+							bad++
+						}
+					}
+				}
+			}
 			x.Outcome = fmt.Sprintf("bad=%d", bad)
 		},
 	})
@@ -272,6 +326,11 @@ func init() {
 			var out []map[string]int
 			for a := 0; a < n; a++ {
 				for b := a; b < n; b++ {
+					if lateFree(progs[a]) || lateFree(progs[b]) {
+						// Free through a raw pointer to a pooled writer AFTER its successful Build released it is a
+						// use after release once another goroutine may own the writer: not a legal concurrent program
+						continue
+					}
 					out = append(out, map[string]int{"a": a, "b": b})
 				}
 			}
